@@ -56,6 +56,12 @@ impl Uint128 {
         ensures (r is Ok) == (self.0 >= other.0), r is Ok ==> r->Ok_0.0 == self.0 - other.0 { unimplemented!() }
     #[verifier::external_body] pub fn checked_mul(self, other: Uint128) -> (r: Result<Uint128, OverflowError>)
         ensures (r is Ok) == (self.0 * other.0 <= u128::MAX), r is Ok ==> r->Ok_0.0 == self.0 * other.0 { unimplemented!() }
+    #[verifier::external_body] pub fn checked_add(self, other: Uint128) -> (r: Result<Uint128, OverflowError>)
+        ensures (r is Ok) == (self.0 + other.0 <= u128::MAX), r is Ok ==> r->Ok_0.0 == self.0 + other.0 { unimplemented!() }
+    #[verifier::external_body] pub fn saturating_sub(self, other: Uint128) -> (r: Uint128)
+        ensures r.0 == (if self.0 >= other.0 { (self.0 - other.0) as u128 } else { 0u128 }) { unimplemented!() }
+    #[verifier::external_body] pub fn saturating_add(self, other: Uint128) -> (r: Uint128)
+        ensures r.0 == (if self.0 + other.0 <= u128::MAX { (self.0 + other.0) as u128 } else { u128::MAX }) { unimplemented!() }
     // Uint128::multiply_ratio: 256-bit intermediate, floor, aborts on zero denominator or >128-bit result
     #[verifier::external_body] pub fn multiply_ratio(&self, numerator: Uint128, denominator: Uint128) -> (r: Uint128)
 //%if A
